@@ -67,8 +67,15 @@ def v_legacy_nonneg(value):
     return None
 
 
+def v_typed_nonneg(value, _port):
+    # relies on the declared type of its port (only used on ports with valid_type int / num): it is never handed a
+    # value that failed the type check
+    return 'negative' if value < 0 else None
+
+
 VALIDATORS = {
     None: None,
+    'typed_nonneg': v_typed_nonneg,
     'neg_empty': v_neg_empty,
     'legacy_has_a': v_legacy_has_a,
     'legacy_nonneg': v_legacy_nonneg,
@@ -139,6 +146,43 @@ def port(required=True, valid_type=None, validator=None, default=None):
 
 
 _SEP_SPECS = {}
+
+
+_STRICT_SPECS = {}
+
+
+def strict_spec_class(base=None):
+    """A ProcessSpec whose explicitly declared output ports are of an application-defined port class that refuses None
+    (the documented extension hook ProcessSpec.OUTPUT_PORT_TYPE); the model marks such ports with ``strict``."""
+    from plumpy import OutputPort, ProcessSpec
+    from plumpy.ports import PortValidationError, breadcrumbs_to_port
+
+    base = base or ProcessSpec
+    if base not in _STRICT_SPECS:
+
+        class NotNoneOutputPort(OutputPort):
+            def validate(self, value, breadcrumbs=()):
+                if value is None:
+                    return PortValidationError('None is not a value', breadcrumbs_to_port((*breadcrumbs, self.name)))
+                return super().validate(value, breadcrumbs)
+
+        _STRICT_SPECS[base] = type('StrictSpec', (base,), {'OUTPUT_PORT_TYPE': NotNoneOutputPort})
+    return _STRICT_SPECS[base]
+
+
+def mark_strict(tree):
+    """The model of a tree declared under strict_spec_class(): every explicit port refuses None."""
+    tree = copy.deepcopy(tree)
+
+    def walk(node):
+        for sub in node['ports'].values():
+            if sub['kind'] == 'ns':
+                walk(sub)
+            else:
+                sub['strict'] = True
+
+    walk(tree)
+    return tree
 
 
 def spec_class_for(sep, base=None):
@@ -313,6 +357,8 @@ def _check_port(p, value):
         if effective_required(p):
             raise Reject('required value missing')
         return
+    if p.get('strict') and value is None:
+        raise Reject('None refused by the port class')
     if not _type_ok(value, p['valid_type']):
         raise Reject('wrong type')
     validator = VALIDATORS[p['validator']]
